@@ -11,6 +11,7 @@
 mod check;
 mod conc;
 mod exec;
+mod fidelity;
 mod gen;
 mod hooks;
 mod json;
@@ -64,6 +65,7 @@ fn main() {
         "gen" => check::cmd_gen(&opts),
         "minimize" => check::cmd_minimize(&pos, &opts),
         "selftest-determinism" => check::cmd_selftest(&opts),
+        "fidelity" => check::cmd_fidelity(&opts),
         x => {
             eprintln!("unknown command {x}");
             2
